@@ -2,7 +2,7 @@
    Only theorem statements closed by [exact]; proofs live in Proofs/SamplerSel.v.
    Strings are byte lists; [rules] is the Samplers map of the rules file; [dest] is what an event
    arrives with (API key, environment name resolved for it, dataset). *)
-From Refinery Require Import Lib.Base Model.TraceKey Model.SamplerSel Proofs.SamplerSel.
+From Refinery Require Import Lib.Base Lib.Strs_samp Model.SamplerSel Proofs.SamplerSel.
 From Refinery Require Gen.GenC14.
 
 (* the translator found the constructs the model follows: the two key shapes, DetermineSamplerKey,
@@ -14,7 +14,7 @@ Theorem C14_source_shape :
   GenC14.sampler_key_shape = true /\ GenC14.lookup_config_shape = true /\
   GenC14.lookup_fields_shape = true /\ GenC14.ingest_shape = true /\ GenC14.decide_shape = true /\
   GenC14.memoize_before_decision = true /\ GenC14.trace_takes_first_span_destination = true /\
-  GenC14.factory_uses_lookup = true /\ GenC14.key_fields_shape = true /\
+  GenC14.factory_uses_lookup = true /\ GenC14.key_fields_shape = true /\ GenC14.empty_names_skipped = true /\
   GenC14.root_prefix = "root."%string /\ GenC14.computed_prefix = "?."%string /\
   GenC14.sampler_choice_order =
     [["v.DeterministicSampler != nil"]; ["v.RulesBasedSampler != nil"]; ["v.DynamicSampler != nil"];
@@ -77,7 +77,7 @@ Proof. exact reads_available. Qed.
 Print Assumptions C14_reads_available.
 
 (* and every field named by the definition is extracted: root.x under the bare name x, plain
-   fields as they are (computed "?." fields do not exist in events) *)
+   fields as they are (computed "?." fields do not exist in events; empty names are skipped) *)
 Theorem C14_root_fields_extracted : forall fields f,
   In f fields -> has_prefix ROOTP14 f = true ->
   In (skipn (length ROOTP14) f) (fst (get_key_fields fields)).
@@ -85,7 +85,7 @@ Proof. exact root_extracted. Qed.
 Print Assumptions C14_root_fields_extracted.
 
 Theorem C14_plain_fields_extracted : forall fields f,
-  In f fields -> has_prefix ROOTP14 f = false -> has_prefix COMPP f = false ->
+  In f fields -> f <> [] -> has_prefix ROOTP14 f = false -> has_prefix COMPP f = false ->
   In f (fst (get_key_fields fields)).
 Proof. exact plain_extracted. Qed.
 Print Assumptions C14_plain_fields_extracted.
